@@ -113,3 +113,33 @@ theorem slice_prefix_reads (self : List α) (k : Nat) :
   rw [this, range_filterMap_take]
 
 end Scico.Block
+
+/-! ### iteration through the legacy sequence protocol -/
+
+namespace Scico.Block
+variable {α : Type}
+theorem getItem_nat (self : List α) (i : Nat) :
+    getItem self (i : Int) = if h : i < self.length then .ok self[i] else .error .index := by
+  unfold getItem
+  have h0 : ¬ ((i : Int) < 0) := by omega
+  simp only [h0, if_false, false_or]
+  by_cases h : i < self.length
+  · have : ¬ ((self.length : Int) ≤ i) := by omega
+    simp [this, h]
+  · have : (self.length : Int) ≤ i := by omega
+    simp [this, h]
+
+theorem iterFrom_eq_drop (self : List α) : ∀ (fuel i : Nat), self.length - i + 1 ≤ fuel →
+    iterFrom self i fuel = self.drop i
+  | 0, i, h => by omega
+  | fuel + 1, i, h => by
+    unfold iterFrom
+    rw [getItem_nat]
+    by_cases hi : i < self.length
+    · simp only [hi, dif_pos]
+      rw [iterFrom_eq_drop self fuel (i + 1) (by omega)]
+      exact (List.drop_eq_getElem_cons hi).symm
+    · simp only [hi, dif_neg, not_false_eq_true]
+      rw [List.drop_eq_nil_of_le (by omega)]
+
+end Scico.Block
